@@ -14,14 +14,14 @@ open Msmart Msmart.Model Msmart.Model.Session Msmart.Lemmas
 theorem await_single {s1 : S} {c1 : Conn} (hc : s1.l.conn = some c1) (hq : c1.queue = []) (hcl : c1.closing = false)
     (t deadline : Nat) (b pkt : Bytes) (rest : List Bytes)
     (hp : s1.w.pending = [⟨t, c1.core.cid, .data b⟩]) (ht : t ≤ deadline)
-    (hseg : segQueue c1.core.v3 c1.buffer b = pkt :: rest) :
+    (hseg : segQueue c1.core.v3 c1.buffer b = pkt :: rest) (hnc : s1.w.cancelAt = none) :
     ∃ s2 c2, awaitQueue (s1.w.pending.length + 1) s1 deadline = (.packet pkt, s2) ∧
       s2.l.conn = some c2 ∧ c2.core = c1.core ∧ c2.queue = rest ∧ c2.closing = false ∧ s2.w.pending = [] ∧
       c2.buffer = (if c1.core.v3 then (parseLoop (c1.buffer ++ b)).2 else c1.buffer) ∧
       c2.keyExpiry = c1.keyExpiry ∧
       s2.w.now = max s1.w.now t ∧ s2.w.log = s1.w.log ∧ s2.w.connects = s1.w.connects ∧ s2.w.nConn = s1.w.nConn ∧
       s2.l.token = s1.l.token ∧ s2.l.key = s1.l.key ∧ s2.l.version = s1.l.version ∧
-      s2.l.connExpiry = s1.l.connExpiry ∧ s2.l.maxLifetime = s1.l.maxLifetime := by
+      s2.l.connExpiry = s1.l.connExpiry ∧ s2.l.maxLifetime = s1.l.maxLifetime ∧ s2.w.cancelAt = none := by
   have hq1 : queueHead s1 = none := by simp [queueHead, hc, hq]
   have hdue : nextDue s1.w.pending deadline = some ⟨t, c1.core.cid, .data b⟩ := by
     rw [hp]; simp [nextDue, ht]
@@ -47,11 +47,13 @@ theorem await_single {s1 : S} {c1 : Conn} (hc : s1.l.conn = some c1) (hq : c1.qu
   have hq1' : queueHead s1' = some pkt := by simp [queueHead, hc1', happ]
   refine ⟨popQueue s1', { { applyEvent (.data b) c1 with core := c1.core } with
       queue := ({ applyEvent (.data b) c1 with core := c1.core } : Conn).queue.drop 1 }, ?_, ?_, rfl, by simp [happ],
-      applyEvent_data_closing c1 b hcl, ?_, hbuf, hke, ?_, ?_, ?_, ?_, ?_, ?_, ?_, ?_, ?_⟩
+      applyEvent_data_closing c1 b hcl, ?_, hbuf, hke, ?_, ?_, ?_, ?_, ?_, ?_, ?_, ?_, ?_, ?_⟩
   · have hlen : s1.w.pending.length + 1 = 1 + 1 := by rw [hp]; rfl
     rw [hlen, awaitQueue, hq1]
     simp only
     rw [hdue]
+    simp only
+    rw [cancelDue_unarmed hnc]
     simp only
     rw [awaitQueue, hq1']
   · simp [popQueue, softConn, hc1']
@@ -59,14 +61,14 @@ theorem await_single {s1 : S} {c1 : Conn} (hc : s1.l.conn = some c1) (hq : c1.qu
     unfold popQueue
     rw [pending_softConn, pending_deliverDue, hp]
     simp [removeFirst]
-  all_goals simp [popQueue, softConn, hc1', s1', deliverDue, hc]
+  all_goals simp [popQueue, softConn, hc1', s1', deliverDue, hc, hnc]
 
 
 /-- an answered handshake attempt on an open, idle V3 connection: the key is accepted, the session is
     idle again (queue and buffer empty, nothing pending) and authenticated -/
 theorem protoAuthenticate_answered {p : Params} {rx : Reactions} {s : S} {c : Conn} (tok key : Bytes)
     (hc : s.l.conn = some c) (hcl : c.closing = false) (hv : c.core.v3 = true) (hquiet : s.w.pending = [])
-    (hbuf : c.buffer = []) (htok : tok.isEmpty = false ∧ tok.length < 65536) (hkey : key.isEmpty = false)
+    (hnc : s.w.cancelAt = none) (hbuf : c.buffer = []) (htok : tok.isEmpty = false ∧ tok.length < 65536) (hkey : key.isEmpty = false)
     (d : Nat) (b reply payload lk : Bytes) (hrx : rx c.core.cid c.core.nWrites = [(d, .data b)])
     (hd : d ≤ p.readTimeout) (hparse : parseLoop b = ([reply], []))
     (hproc : processPacket c.core.localKey reply = .ok payload) (hlk : getLocalKey key payload = .ok lk) :
@@ -94,9 +96,12 @@ theorem protoAuthenticate_answered {p : Params} {rx : Reactions} {s : S} {c : Co
     simp [s1, react, setCore, logEv, hnow]
   have hseg : segQueue c1.core.v3 c1.buffer b = reply :: [] := by
     simp [segQueue, c1, cf, bump, hv, hbuf, hparse]
-  obtain ⟨s2, c2, ha, hc2, hcore2, hq2, hcl2, hp2, hb2, _, hnow2, hlog2, _⟩ :=
+  have hnc1 : s1.w.cancelAt = none := by
+    have : (flush s).w.cancelAt = none := by unfold flush; rw [cancelAt_softConn]; exact hnc
+    simpa [s1, react, setCore, logEv] using this
+  obtain ⟨s2, c2, ha, hc2, hcore2, hq2, hcl2, hp2, hb2, _, hnow2, hlog2, _, _, _, _, _, _, _, hnc2⟩ :=
     await_single (s1 := s1) (c1 := c1) hc1 (by simp [c1, cf]) (by simp [c1, cf, hcl]) (s.w.now + d)
-      (s1.w.now + p.readTimeout) b reply [] hp1 (by rw [hnow1]; omega) hseg
+      (s1.w.now + p.readTimeout) b reply [] hp1 (by rw [hnow1]; omega) hseg hnc1
   have hkey2 : curKey s2 = c.core.localKey := by simp [curKey, hc2, hcore2, c1, bump]
   have hacc : acceptReply p s2 key reply = (.ok (), opAccept s2 lk (s2.w.now + p.authExpiry)) := by
     unfold acceptReply
@@ -106,7 +111,8 @@ theorem protoAuthenticate_answered {p : Params} {rx : Reactions} {s : S} {c : Co
   let c3 : Conn := { c2 with core := { c2.core with localKey := some lk }, keyExpiry := some (s2.w.now + p.authExpiry) }
   have hs3 : (opAccept s2 lk (s2.w.now + p.authExpiry)).l.conn = some c3 := by
     simp [opAccept, hc2, logEv, c3]
-  refine ⟨opAccept s2 lk (s2.w.now + p.authExpiry), c3, ?_, ⟨hs3, by simp [c3, hcl2], by simp [c3, hq2], ?_, ?_⟩, ?_, ?_, ?_, ?_⟩
+  refine ⟨opAccept s2 lk (s2.w.now + p.authExpiry), c3, ?_, ⟨hs3, by simp [c3, hcl2], by simp [c3, hq2], ?_, ?_,
+    by rw [cancelAt_opAccept]; exact hnc2⟩, ?_, ?_, ?_, ?_⟩
   · unfold protoAuthenticate
     simp only [htok.1, hkey, Bool.false_eq_true, or_self, ↓reduceIte]
     rw [hw]
@@ -181,6 +187,7 @@ theorem freshExpiryOk_of (s : S) (h : s.l.connExpiry = none ∨ ∃ m, s.l.maxLi
     data request promptly: reconnect, handshake, one transmission, the device's response -/
 theorem lanSend_recovers_v3 {p : Params} {rx : Reactions} {s : S} (frame : Bytes) (n : Nat) (cs : List ConnOutcome)
     (tok key : Bytes) (hver : s.l.version = 3) (hal : connAlive s = false) (hquiet : s.w.pending = [])
+    (hnc : s.w.cancelAt = none)
     (hconn : s.w.connects = .ok :: cs) (hexp : FreshExpiryOk s)
     (htok : s.l.token = some tok) (hkey : s.l.key = some key)
     (htok' : tok.isEmpty = false ∧ tok.length < 65536) (hkey' : key.isEmpty = false)
@@ -217,9 +224,12 @@ theorem lanSend_recovers_v3 {p : Params} {rx : Reactions} {s : S} (frame : Bytes
   have hq1 : s1.w.pending = [] := by
     show (opDisconnect s).w.pending = []
     rw [pending_opDisconnect]; exact hquiet
+  have hnc1 : s1.w.cancelAt = none := by
+    show (opDisconnect s).w.cancelAt = none
+    rw [cancelAt_opDisconnect]; exact hnc
   -- the handshake
   obtain ⟨s4, c4, hpa, hr4, hcore4, hbuf4, hke4, hev4⟩ := protoAuthenticate_answered (p := p) (rx := rx) (s := s1) (c := c1)
-    tok key hc1 rfl rfl hq1 rfl htok' hkey' d0 b0 reply payload lk (by simpa [c1] using hrx0) hd0 hparse0
+    tok key hc1 rfl rfl hq1 hnc1 rfl htok' hkey' d0 b0 reply payload lk (by simpa [c1] using hrx0) hd0 hparse0
     (by simpa [c1] using hproc) hlk
   have hauth4 : authenticated s4 = true := by
     simp [authenticated, hr4.conn, hcore4, hke4]
@@ -233,7 +243,8 @@ theorem lanSend_recovers_v3 {p : Params} {rx : Reactions} {s : S} (frame : Bytes
     pump_quiet _ (by simpa [storeCreds] using hr4.quiet)
   have hr5 : Ready s5 c4 := by
     rw [hs5]
-    exact ⟨by simpa [setNow, storeCreds] using hr4.conn, hr4.open_, hr4.queue, by simpa [setNow, storeCreds] using hr4.quiet, hr4.key⟩
+    exact ⟨by simpa [setNow, storeCreds] using hr4.conn, hr4.open_, hr4.queue, by simpa [setNow, storeCreds] using hr4.quiet, hr4.key,
+      by simpa [setNow, storeCreds] using hr4.unarmed⟩
   have hev5 : evsOf s5 = evsOf s4 := by rw [hs5]; rfl
   have hla : lanAuthenticate p rx s1 none none Generated.lanRetries = (.ok (), s5) := by
     unfold lanAuthenticate
